@@ -303,6 +303,7 @@ pub struct Peer<C: Config> {
     pub sess: Sess<C>,
     pub mon: PeerMon,
     pub rx_seen: Rc<RefCell<Vec<Addr>>>,
+    pub qreplies: Rc<RefCell<HashMap<Addr, u32>>>,
     pub delay_ref: HashMap<usize, DelayRef>,
     pub started: u64,
 }
@@ -361,7 +362,8 @@ where
     let mut peers: Vec<Peer<C>> = Vec::new();
     for (id, spec) in &sc.peers {
         let rx_seen = Rc::new(RefCell::new(Vec::new()));
-        let sock = SimSocket { me: *id, net: net.clone(), last_rx_from: rx_seen.clone() };
+        let qreplies = Rc::new(RefCell::new(HashMap::new()));
+        let sock = SimSocket { me: *id, net: net.clone(), last_rx_from: rx_seen.clone(), qreplies: qreplies.clone() };
         let mut delay_ref = HashMap::new();
         let built = guarded(|| -> Result<Sess<C>, GgrsError> {
             match spec {
@@ -418,7 +420,7 @@ where
                 delay_ref.insert(*h, DelayRef { delay: *delay as i32, last_user: -1, ..Default::default() });
             }
         }
-        peers.push(Peer { id: *id, spec: spec.clone(), sess, mon: PeerMon::new(cfg.players), rx_seen, delay_ref, started: 0 });
+        peers.push(Peer { id: *id, spec: spec.clone(), sess, mon: PeerMon::new(cfg.players), rx_seen, qreplies, delay_ref, started: 0 });
     }
     // initial SyncRequests were queued at construction; the first poll sends them.
     let truth: Rc<RefCell<HashMap<usize, Vec<u32>>>> = Rc::new(RefCell::new(HashMap::new()));
@@ -910,6 +912,28 @@ where
             if running != all_synced {
                 out.hit("C12", "running-iff-all-synchronized", &scen, &format!("peer {id}: session state Running={running} but all endpoints past the handshake={all_synced}"));
             }
+            // C16: a call that advanced the session although an endpoint had not finished its handshake
+            if advanced_ok && !all_synced {
+                out.hit("C16", "advance-before-sync", &scen, &format!("peer {id}: advance_frame was accepted (frame {before} -> {after}) although an endpoint has not finished its handshake (documented: NotSynchronized)"));
+            }
+            // ---- network_stats (C15): numbers only once data exists; ping within the link's round trip ----
+            if let Some(slack) = cfg.expect.iter().find_map(|x| x.strip_prefix("ping").and_then(|v| v.parse::<u128>().ok())) {
+                for h in s.remote_player_handles() {
+                    let Some(addr) = sc.peers.iter().find_map(|(pid, spec)| match spec {
+                        PeerSpec::P2P { local, .. } if local.contains(&h) => Some(*pid),
+                        _ => None,
+                    }) else { continue };
+                    if let Ok(st) = s.network_stats(h) {
+                        let n = p.qreplies.borrow().get(&addr).copied().unwrap_or(0);
+                        let rtt = 2 * u128::from(cfg.lat);
+                        if n == 0 {
+                            out.hit("C15", "stats-without-data", &scen, &format!("peer {id}: network_stats({h}) returns numbers (ping {}) before any quality reply from {addr} has arrived", st.ping));
+                        } else if st.ping < rtt || st.ping > rtt + slack {
+                            out.hit("C15", "ping", &scen, &format!("peer {id}: network_stats({h}).ping = {} ms, the link's round trip is {rtt} ms (+ at most {slack} ms of polling delay)", st.ping));
+                        }
+                    }
+                }
+            }
             // ---- receive times for the timer monitor (C07) ----
             for a in p.rx_seen.borrow().iter() {
                 p.mon.last_rx.insert(*a, now);
@@ -1186,6 +1210,30 @@ where
                     }
                 }
             }
+        }
+    }
+    // ---- per peer: the game state is the serial replay of the inputs of its final timeline (C01) ----
+    // (a state handed back by a stale saved cell breaks this although every input is right)
+    for p in peers.iter() {
+        if !matches!(p.sess, Sess::P2P(_)) {
+            continue;
+        }
+        let g = &p.mon.game;
+        let mut h = 0x1234_5678u64;
+        let mut bad: Option<usize> = None;
+        for (f, fi) in g.hist.iter().enumerate() {
+            for (v, s) in fi {
+                h = mix(h, (u64::from(*v) << 1) | u64::from(*s == 2));
+            }
+            if g.hashes.get(f + 1).copied() != Some(h) && bad.is_none() {
+                bad = Some(f + 1);
+            }
+        }
+        if let Some(f) = bad {
+            out.hit("C01", "state-not-serial-replay", scen, &format!(
+                "peer {}: the game state at frame {f} is not the serial replay of the inputs the session had it simulate (frames 0..{f}): a saved state from an abandoned timeline was loaded", p.id));
+        } else if g.hash != h {
+            out.hit("C01", "state-not-serial-replay", scen, &format!("peer {}: the final game state is not the serial replay of the inputs of its timeline", p.id));
         }
     }
     // ---- cross-peer: identical states on mutually confirmed frames (C01), survivors agree (C10) ----
